@@ -167,6 +167,22 @@ func SelfTest(prop, repo, verif string) []MutantResult {
 			}
 			lines := strings.Split(strings.TrimSpace(string(out)), "\n")
 			json.Unmarshal([]byte(lines[len(lines)-1]), &parsed)
+			// violations listed as known findings exist on the unchanged tree too: they say nothing about the mutant
+			if known, err := an.LoadKnown(filepath.Join(verif, "known_findings.json")); err == nil {
+				var kept []an.Obligation
+				for _, o := range parsed.Bad {
+					isKnown := false
+					for _, f := range known.Findings {
+						if f.Property == prop && f.Key == o.Key && o.Status == an.Violation {
+							isKnown = true
+						}
+					}
+					if !isKnown {
+						kept = append(kept, o)
+					}
+				}
+				parsed.Bad = kept
+			}
 			switch {
 			case parsed.Skipped:
 				r.Result, r.Detail = "SKIPPED", "patch context not found exactly once in the current tree"
